@@ -19,9 +19,11 @@ This module only generates, runs, encodes and counts; it never decides whether a
 """
 from __future__ import annotations
 
+import contextlib
 import hashlib
 import json
 import os
+import re as _re
 import shutil
 import sys
 import tempfile
@@ -550,6 +552,32 @@ def _run_cli(argv, capture_path):
     return err
 
 
+@contextlib.contextmanager
+def _quiet():
+    """file descriptors 1 and 2 to /dev/null (the library prints progress, htslib warns on stderr)"""
+    for st in (sys.stdout, sys.stderr):
+        try:
+            st.flush()
+        except Exception:
+            pass
+    saved1, saved2 = os.dup(1), os.dup(2)
+    devnull = os.open(os.devnull, os.O_WRONLY)
+    try:
+        os.dup2(devnull, 1)
+        os.dup2(devnull, 2)
+        yield
+    finally:
+        for st in (sys.stdout, sys.stderr):
+            try:
+                st.flush()
+            except Exception:
+                pass
+        os.dup2(saved1, 1)
+        os.dup2(saved2, 2)
+        for fd in (saved1, saved2, devnull):
+            os.close(fd)
+
+
 def _resolve(dotted):
     import importlib
     mod, _, attr = dotted.rpartition(".")
@@ -693,7 +721,8 @@ def run_behaviour(beh):
             if st["lib"]["mode"] != "none":
                 os.chdir(copy)
                 try:
-                    libids = [digest_file(p) for p in _run_lib(st["lib"], libout)]
+                    with _quiet():
+                        libids = [digest_file(p) for p in _run_lib(st["lib"], libout)]
                 except MachineryError:
                     raise
                 except Exception as ex:          # a refusal of the library is an outcome (error_equals_library)
@@ -851,7 +880,6 @@ def validate_behaviours(ctx, behs, menu_path):
     return enc
 
 
-import re as _re
 _re_b = _re.compile(r"/\\ b = (\d+)")
 _re_l = _re.compile(r"/\\ l = (\d+)")
 _VERDICT_VARS = ("failed", "checked", "drift", "oos", "trig")
@@ -985,7 +1013,16 @@ def run(ctx: Ctx):
     nsim = 600 if thorough else 120
     sim = []
     for pre, share in (([], 2), ([0, 2], 1)):
-        sim += behaviours_simulated(ctx, menu_path, nsim * share // 3, pre)
+        # TLC picks successors uniformly, i.e. mostly commands with many admissible input combinations: draw three times
+        # as many behaviours and keep those with the rarer commands (seeded weighted choice; generation only)
+        pool = behaviours_simulated(ctx, menu_path, nsim * share, pre)
+        freq = {}
+        for bh in pool:
+            for s in bh["steps"]:
+                freq[s["cmd"]] = freq.get(s["cmd"], 0) + 1
+        keyed = sorted(((ctx.rng.random() ** (1.0 / sum(1.0 / freq[s["cmd"]] for s in bh["steps"])), k) for k, bh in enumerate(pool)),
+                       reverse=True)
+        sim += [pool[k] for _w, k in keyed[:nsim * share // 3]]
     # (c) repeated writes of `reference` to one path: k runs leave k files (structured behaviours from the model's menu)
     behs = picked + sim
     seen, uniq = set(), []
